@@ -9,6 +9,7 @@
 #include <functional>
 #include <tuple>
 #include <utility>
+#include <type_traits>
 
 using namespace nano;
 using vh::join;
@@ -309,6 +310,33 @@ struct shape_checker
             for (tensor_size_t k = 0; k < t.size(); ++k) if (t(k) != other(k)) { FAIL("map assignment %s", ds(dims).c_str()); break; }
             t = backup;
         }
+        // conversions whose source aliases the destination: an owning tensor assigned from a (constant or mutable)
+        // view of its own buffer must end up with exactly the viewed elements (ASan sees a use-after-free otherwise)
+        for (tensor_size_t b = 0; b <= dims[0]; ++b)
+            for (tensor_size_t e = b; e <= dims[0]; ++e)
+            {
+                const auto row = dims[0] > 0 ? t.size() / dims[0] : 0;
+                {
+                    tensor x = t;
+                    x        = std::as_const(x).slice(b, e);
+                    auto want = dims;
+                    want[0]   = e - b;
+                    if (x.dims() != want) FAIL("self-aliasing const-view assignment dims %s [%ld,%ld)", ds(dims).c_str(), (long)b, (long)e);
+                    else
+                        for (tensor_size_t k = 0; k < x.size(); ++k)
+                            if (x(k) != val(b * row + k)) { FAIL("self-aliasing const-view assignment content %s [%ld,%ld) at %ld", ds(dims).c_str(), (long)b, (long)e, (long)k); break; }
+                }
+                {
+                    tensor x = t;
+                    x        = x.slice(b, e);
+                    auto want = dims;
+                    want[0]   = e - b;
+                    if (x.dims() != want) FAIL("self-aliasing view assignment dims %s [%ld,%ld)", ds(dims).c_str(), (long)b, (long)e);
+                    else
+                        for (tensor_size_t k = 0; k < x.size(); ++k)
+                            if (x(k) != val(b * row + k)) { FAIL("self-aliasing view assignment content %s [%ld,%ld) at %ld", ds(dims).c_str(), (long)b, (long)e, (long)k); break; }
+                }
+            }
         std::printf("CONV %s = ok\n", ds(dims).c_str());
         ++g_lines;
     }
